@@ -922,11 +922,11 @@ outerProduct (const Vec4<T>& a, const Vec4<T>& b)
         a.y * b.x,
         a.y * b.y,
         a.y * b.z,
-        a.x * b.w,
+        a.y * b.w,
         a.z * b.x,
         a.z * b.y,
         a.z * b.z,
-        a.x * b.w,
+        a.z * b.w,
         a.w * b.x,
         a.w * b.y,
         a.w * b.z,
